@@ -259,7 +259,7 @@ def run(ctx: Ctx):
             p = batch.live[0]
             ctx.sample({"expressions": [gen.expr_src(x[3]) for x in p.meta["exps"][:4]], "args": p.meta["args"]})
         batch.cleanup()
-    ctx.floor("expressions_checked", 5000 if quick else 100000)
+    ctx.floor("expressions_checked", 3000 if quick else 60000)
     ctx.floor("context_bool", 300)
     ctx.floor("context_cond", 300)
     ctx.floor("context_app", 100)
